@@ -52,7 +52,7 @@ def strategy_(g):
     if shape == "edge":
         tag = g.choice(TAGS)
         kinds = _kinds_for(g, tag)
-        s = g.choice([1.0, 1.0, 10.0, 100.0])
+        s = g.choice([1.0, 1.0, 10.0, 100.0, 1e7])
         for _ in range(50):
             ops = [g.pose(k, s=s) for k in kinds]
             pos = [o["v"][: R.PDIM[o["k"]]] for o in ops]
@@ -80,6 +80,10 @@ def strategy_(g):
             else:
                 ops = [{"k": k, "v": list(R.identity(k))} for k in kinds]
         case = {"shape": "edge", "tag": tag, "ops": ops, "z": z, "info": g.sym_matrix(n, max_cond=1e2, kind=g.choice(["spd", "ident"]))}
+        # whole-number weights handed over as an integer-dtype matrix (np.eye(n, dtype=int), np.diag([2, 3]))
+        if g.choice([False, False, False, True]):
+            case["info"] = np.diag([float(rnd.randint(1, 9)) for _ in range(n)]).tolist()
+            case["info_int"] = True
         # history: a second state for the vertices of the same edge object (after a chi2 query)
         case["ops_b"] = [g.pose(k, s=s) for k in kinds]
         if tag in ("dist", "range"):
@@ -139,7 +143,10 @@ def _build_edge(case, flavour):
         verts = [gs.Vertex(i, gs.mk_pose(o)) for i, o in enumerate(case["ops"])]
     z = case["z"]
     est = gs.mk_pose(z) if isinstance(z, dict) else (np.array(z, dtype=float) if case["tag"] in ("mid", "eqstep") else float(z[0]))
-    e = CE.CLASSES[(case["tag"], flavour)](list(range(len(verts))), np.array(case["info"], dtype=float), est, verts)
+    info = np.array(case["info"], dtype=float)
+    if case.get("info_int"):
+        info = info.astype(np.int64)
+    e = CE.CLASSES[(case["tag"], flavour)](list(range(len(verts))), info, est, verts)
     return e, verts, kinds
 
 
@@ -153,6 +160,8 @@ def _check_edge(case, ctx):
     tag = case["tag"]
     e, verts, kinds = _build_edge(case, "num")
     ctx.event("edge:" + tag)
+    if case.get("info_int"):
+        ctx.event("integer-dtype-information")
     if case.get("shared_pose"):
         ctx.event("vertices-share-one-pose-object")
     if _check_edge_state(case, ctx, e, verts, kinds, ""):
